@@ -273,7 +273,7 @@ def _parents(name: str):
 
 def create(self, name: str):
     name = canon_name(name)
-    if name == "INBOX" or not name.strip() or name.isdigit() or name.endswith("/") or "//" in name:
+    if name == "INBOX" or not name.strip() or name.endswith("/") or "//" in name:
         raise Refused(("NO", "BAD"), "invalid name")
     m = self.mboxes.get(name)
     if m is not None and not m.noselect:
@@ -327,7 +327,7 @@ def rename(self, old: str, new: str):
     m = self.mboxes.get(old)
     if m is None:
         raise Refused(("NO",), "no such mailbox")
-    if new in self.mboxes or new == "INBOX" or not new.strip() or new.isdigit():
+    if new in self.mboxes or new == "INBOX" or not new.strip():
         raise Refused(("NO", "BAD"), "destination exists / invalid")
     if new.startswith(old + "/"):
         raise Refused(("NO", "BAD"), "destination is an inferior of the source")
